@@ -351,3 +351,13 @@ Theorem C12_mcs_mol_valid :
               common_induced (node_match defs) edge_match g1u g2u (concat ms)).
 Proof. exact mcs_mol_valid. Qed.
 Print Assumptions C12_mcs_mol_valid.
+
+(** the isomorphism test of a pair of components ([comp_iso], the model of GraphMatcher(sub1, sub2).is_isomorphic() for equal
+    sizes) holds iff some common induced mapping of the two induced copies covers all of c1 *)
+Theorem C12_comp_iso_meaning :
+  forall (nm : option nattr -> option nattr -> bool) (em : eattr -> eattr -> bool) (g1 g2 : graph) (c1 c2 : list N),
+  NoDup c1 -> incl c1 (node_ids g1) -> incl c2 (node_ids g2) ->
+  (comp_iso nm em g1 g2 c1 c2 = true <->
+   exists m, common_induced nm em (induced_sub g1 c1) (induced_sub g2 c2) m /\ Permutation (map fst m) c1).
+Proof. exact comp_iso_spec. Qed.
+Print Assumptions C12_comp_iso_meaning.
